@@ -147,6 +147,9 @@ def contracts(repo):
     items.append(get_attribute_single_spec())
     items.append(Custom('status_after_store', status_after_store, replay=replay_status_order, targets=[('server/enip/logix.py', 'Logix.request')],
                         note='ordering condition on the AST of Logix.request: failure status before the range computation, no success status before the store'))
+    # which names are known: a request naming a tag that does not exist is refused - the symbol-table key is the contract of C03 (ISO-8859-1 case folding, nothing looser)
+    from . import C03 as _C03
+    items.append(_C03.canonicalize_spec())
     # an accepted string stays readable: every length the wire can carry (SSTRING 0..255, STRING 0..65535) is a length the producer encodes (contracts of C01)
     from . import C01 as _C01
     items += _C01.string_specs()
@@ -197,8 +200,8 @@ def bounded(tier, seed):
     rounds = 60 if tier == 'quick' else 600
     for ttype in types:
         ln = 5
-        lx = sim.fresh({'A': (ttype, ln), 'B': (ttype, 3)}, max_bytes=rng.choice([4, 16, 488]))
-        model = {'A': [0] * ln, 'B': [0] * 3}
+        lx = sim.fresh({'A': (ttype, ln), 'B': (ttype, 3), 'Strasse': (ttype, 2)}, max_bytes=rng.choice([4, 16, 488]))
+        model = {'A': [0] * ln, 'B': [0] * 3, 'Strasse': [0] * 2}
         for step in range(rounds):
             if len(violations) >= 5:
                 break
@@ -211,10 +214,16 @@ def bounded(tier, seed):
             before = snapshot(model)
             ev += 1
             if kind == 'unknown':
-                d = sim.read_tag(lx, 'NoSuchTag', 0, 1)
+                # names no tag has: unrelated ones, and near misses of defined names (a suffix, a dropped letter, another ISO-8859-1 spelling
+                # that only a looser notion of "the same name" than case-insensitivity would identify with a defined tag)
+                unk = rng.choice(['NoSuchTag', u'Stra\xdfe', u'STRA\xdfE', 'Strasse2', 'Strass', 'AA', 'A_', u'\xc4', 'B0'])
+                if rng.random() < 0.5:
+                    d = sim.read_tag(lx, unk, 0, 1)
+                else:
+                    d = sim.write_tag(lx, unk, 0, 1, code[ttype], [1])
                 ok = d.status not in (0, 6) and snapshot(model) == before
-                key = ('unknown',)
-                want = 'non-zero status, tags unchanged'
+                key = ('unknown', unk)
+                want = 'non-zero status for the unknown tag %r, tags unchanged' % unk
             elif kind.startswith('read'):
                 off = 0 if kind == 'read_tag' else rng.choice([0, 0, elm, 2 * elm + 1])
                 siz = lx and {'SINT': 1, 'USINT': 1, 'BOOL': 1, 'INT': 2, 'UINT': 2, 'DINT': 4, 'UDINT': 4, 'LINT': 8, 'ULINT': 8}[ttype]
